@@ -193,6 +193,28 @@ def scenario_task(task: tuple) -> dict:
     return part.out()
 
 
+def replay_case(raw: dict, part: Part) -> None:
+    """Re-run exactly one recorded schedule of one scenario and re-check linearizability."""
+    backends.setup_determinism()
+    backends.sqlite_template()
+    cfg, names = raw["config"], raw["programs"]
+    if cfg in SIMFS_CONFIGS:
+        sc: Any = SimfsScenario(cfg, "std", build_programs(names))
+    elif cfg in SQL_CONFIGS:
+        from . import thx as _thx
+
+        _thx.set_instrumented([])
+        sc = SqlScenario(cfg, "std", build_programs(names))
+    else:
+        sc = Scenario(cfg, "std", build_programs(names), [importlib.import_module(m) for m in THREAD_CONFIGS[cfg]])
+    ex = sc.execute(Chooser(list(raw["schedule"])))
+    print("history:", ex["hist"])
+    if ex["deadlock"]:
+        part.violation("deadlock", raw)
+    elif not sc.linearizable(ex)[0]:
+        part.violation("not-linearizable", raw)
+
+
 def run(tier: str, replay: str | None = None) -> int:
     backends.setup_determinism()
     ctx = Ctx(PID, tier, "model_checking")
